@@ -308,6 +308,7 @@ func (x *Unit) nextLoop() (int, loopSpec) {
 
 // modified: which env vars / heap keys / ghosts differ between base and the given back-edge states.
 type modset struct {
+	keepShape map[types.Object]bool // slice variables never assigned as a whole inside the loop
 	vars  map[types.Object]bool
 	heap  map[string]Sort
 	ghost map[string]bool
@@ -365,11 +366,16 @@ func (x *Unit) havocMods(st *State, m *modset) {
 		x.havocAllHeap(st)
 	}
 	for o := range m.vars {
-		if _, ok := st.env[o]; !ok {
+		old, ok := st.env[o]
+		if !ok {
 			continue
 		}
 		v := Val{x.fresh(o.Name(), x.u.SortOf(o.Type())), o.Type()}
 		st.env[o] = v
+		if _, isSlice := x.u.sliceElem[v.Sort]; isSlice && m.keepShape != nil && m.keepShape[o] && old.Sort == v.Sort {
+			// only elements of this slice variable are written in the loop: its length and capacity stay
+			x.assume(st, And(Eq(x.u.SliceLen(v.T), x.u.SliceLen(old.T)), Eq(x.u.SliceCap(v.T), x.u.SliceCap(old.T))))
+		}
 	}
 	for k, srt := range m.heap {
 		st.heap[k] = x.fresh("H_"+k, srt)
@@ -485,6 +491,7 @@ func (x *Unit) runLoop(pre *State, lb loopBody, fl *flow, label string) *State {
 	endLoopN := -1
 	// 1. find the modified set by dry runs to a fixpoint
 	mods := newModset()
+	mods.keepShape = x.elementOnlySlices(lb.node)
 	for iter := 0; iter < 6; iter++ {
 		sp := x.save()
 		x.dry++
@@ -1139,4 +1146,68 @@ func (x *Unit) execGo(st *State, s *ast.GoStmt) {
 			}
 		}
 	}
+}
+
+// elementOnlySlices: slice-typed variables that the loop writes only through index expressions (never as a whole).
+func (x *Unit) elementOnlySlices(loop ast.Node) map[types.Object]bool {
+	if loop == nil {
+		return nil
+	}
+	whole := map[types.Object]bool{}
+	indexed := map[types.Object]bool{}
+	mark := func(e ast.Expr, m map[types.Object]bool) {
+		if id, ok := ast.Unparen(e).(*ast.Ident); ok {
+			if o := x.info.ObjectOf(id); o != nil {
+				m[o] = true
+			}
+		}
+	}
+	ast.Inspect(loop, func(n ast.Node) bool {
+		switch n := n.(type) {
+		case *ast.AssignStmt:
+			for _, l := range n.Lhs {
+				mark(l, whole)
+				// a[i] = v, a[i].f = v
+				e := ast.Unparen(l)
+				for {
+					switch t := e.(type) {
+					case *ast.SelectorExpr:
+						e = ast.Unparen(t.X)
+						continue
+					case *ast.IndexExpr:
+						mark(t.X, indexed)
+						e = ast.Unparen(t.X)
+						continue
+					}
+					break
+				}
+			}
+		case *ast.IncDecStmt:
+			mark(n.X, whole)
+		case *ast.RangeStmt:
+			if n.Key != nil {
+				mark(n.Key, whole)
+			}
+			if n.Value != nil {
+				mark(n.Value, whole)
+			}
+		case *ast.UnaryExpr:
+			if n.Op == token.AND {
+				mark(n.X, whole)
+			}
+		case *ast.CallExpr:
+			// copy(dst, ...) writes elements of dst
+			if x.isBuiltin(n, "copy") && len(n.Args) > 0 {
+				mark(n.Args[0], indexed)
+			}
+		}
+		return true
+	})
+	out := map[types.Object]bool{}
+	for o := range indexed {
+		if !whole[o] {
+			out[o] = true
+		}
+	}
+	return out
 }
